@@ -63,6 +63,16 @@ func (vc *VC) call(fr *frame, st *State, site ssa.Instruction, c *ssa.CallCommon
 	if cv, ok := vc.valueOf(fr, c.Value).(*ClosureVal); ok && cv.fn.Blocks != nil {
 		return mkResult(vc.inlineCall(fr, st, site, cv.fn, append(args, cv.bindings...), resT))
 	}
+	if p, isParam := c.Value.(*ssa.Parameter); isParam && fr.top && vc.contract != nil && vc.contract.FParams != nil {
+		if fpc, ok := vc.contract.FParams[p.Name()]; ok {
+			var ptypes []SType
+			sig := c.Signature()
+			for i := 0; i < sig.Params().Len(); i++ {
+				ptypes = append(ptypes, FromGo(sig.Params().At(i).Type()))
+			}
+			return mkResult(vc.contractCall(fr, st, site, fpc, nil, args, ptypes, resT))
+		}
+	}
 	if vc.contract != nil && vc.contract.Iterates != nil && c.Signature().Results().Len() == 1 {
 		// the only opaque function value a forwarder can call is its delegate
 		return vc.delegateCall(fr, st, site, args)
@@ -72,6 +82,9 @@ func (vc *VC) call(fr *frame, st *State, site ssa.Instruction, c *ssa.CallCommon
 
 func (vc *VC) staticCall(fr *frame, st *State, site ssa.Instruction, callee *ssa.Function, args []Value, resT SType) []Value {
 	key := funcKey(callee)
+	if key == cypherModelPkg+".Copy" && vc.w.copyBuiltin && vc.topKey != key {
+		return []Value{vc.copyBuiltin(fr, st, site, args[0], FromGo(callee.Params[0].Type()))}
+	}
 	body := callee
 	if o := callee.Origin(); o != nil {
 		body = o
@@ -414,6 +427,13 @@ func (vc *VC) evalModifies(env *Env, fc *FuncContract) (targets []modTarget, err
 
 // locTargets resolves an lvalue expression x.f (possibly nested) to components.
 func (vc *VC) locTargets(env *Env, e Expr) []modTarget {
+	if ix, ok := e.(EIndex); ok {
+		if id, isID := ix.X.(EIdent); isID {
+			if _, _, isGhost := env.ghostCompTerm(id.Name); isGhost {
+				return []modTarget{{comp: "ghost:g." + id.Name, idx: env.asInt(env.eval(ix.I))}}
+			}
+		}
+	}
 	sel, ok := e.(ESel)
 	if !ok {
 		efail("modifies: field selector expected")
@@ -930,4 +950,83 @@ func (vc *VC) axiomRelevant(ax axiomDecl) bool {
 		}
 	}
 	return false
+}
+
+
+// copyBuiltin is the built-in specification of cypher.Copy at its call sites: the result is a copy of
+// the argument in the sense of the uninterpreted relation iscopy (pointers, model interfaces, maps), a
+// fresh backing array holding copies (slices), or the value itself (scalars). It is what the one-level
+// contracts of the copy() methods are checked against; Copy's own dispatch is covered by the derived
+// arm obligations.
+func (vc *VC) copyBuiltin(fr *frame, st *State, site ssa.Instruction, v Value, t SType) Value {
+	name := "copy"
+	if sv, ok := site.(ssa.Value); ok {
+		name = sv.Name()
+	}
+	vc.note("cypher.Copy is replaced at call sites by its built-in specification (iscopy / fresh backing arrays)")
+	switch t.K {
+	case KRef, KPtr, KMap, KIface:
+		x := vc.toTerm(v)
+		var r Term
+		if t.K == KIface {
+			r = vc.script.Declare(name+":copy", SInt)
+			vc.script.Assume(Ge(r, Zero))
+			vc.assume(st, Implies(Ne(x, Zero), Ne(r, x)))
+		} else {
+			fresh := vc.newRef(st, name+":copy")
+			r = vc.script.Define(name+":copy", Ite(Eq(x, Zero), Zero, fresh))
+			if t.K == KPtr && t.Elem.single() {
+				// pointer to a scalar: the fresh cell holds the same value
+				loc := Loc{canonicalPrefix(*t.Elem), []Term{fresh}}
+				vc.readLoc(st.heap, loc, *t.Elem)
+				vc.writeCell(st, loc, vc.readCell(st.heap, Loc{canonicalPrefix(*t.Elem), []Term{x}}))
+			}
+		}
+		vc.assume(st, vc.isCopy(r, x))
+		return vc.wrap(r, t)
+	case KSlice:
+		sv, ok := v.(SliceVal)
+		if !ok {
+			vc.fail("Copy of non-slice value as %s", t)
+		}
+		el := *t.Elem
+		if !el.single() {
+			vc.fail("Copy of slice with composite elements %s", t)
+		}
+		fresh := vc.newRef(st, name+":arr")
+		arr := vc.script.Define(name+":arr", Ite(Eq(sv.Arr, Zero), Zero, fresh))
+		comp := vc.elemsComp(el)
+		elems := vc.hget(st.heap, comp)
+		res := vc.script.Declare(name+":elems", ArrSort(SInt, el.SortOf()))
+		i := Term{"i!", SInt}
+		src := Select(Select(elems, sv.Arr), Add(sv.Off, i))
+		var rel Term
+		if isRefKind(el) || el.K == KIface && vc.modelIface(el) {
+			rel = And(vc.isCopy(Select(res, i), src), Implies(Ne(src, Zero), Ne(Select(res, i), src)))
+		} else {
+			rel = Eq(Select(res, i), src)
+		}
+		vc.assume(st, Forall([]Term{i}, Implies(And(Le(Zero, i), Lt(i, sv.Len)), rel), []Term{Select(res, i)}))
+		vc.hset(st, comp, Store(elems, fresh, res))
+		vc.noteWrite(comp, fresh)
+		ln := vc.script.Define(name+":len", Ite(Eq(sv.Arr, Zero), Zero, sv.Len))
+		return SliceVal{Arr: arr, Off: Zero, Len: ln, Cap: ln, Elem: el}
+	}
+	if t.K == KStruct {
+		// a struct handed to Copy by value (expressionList): copied field by field
+		if sv, ok := v.(StructVal); ok {
+			out := StructVal{T: sv.T, F: map[string]Value{}}
+			st2, _ := structOf(t.Go)
+			for i := 0; i < st2.NumFields(); i++ {
+				f := st2.Field(i)
+				out.F[f.Name()] = vc.copyBuiltin(fr, st, site, sv.F[f.Name()], FromGo(f.Type()))
+			}
+			return out
+		}
+	}
+	return v
+}
+
+func (vc *VC) modelIface(t SType) bool {
+	return t.Go != nil && isModelChild(t.Go)
 }
